@@ -33,6 +33,11 @@ MATH_ITEMS = ['pi', 'e', '2*pi', 'sqrt(2.0)', 'exp(1.0)', '-tau', 'floor(2.5)', 
 BAD_TEXTS = ['undefined_name', '[1., 2.', 'foo(3)', '1/0', '[1.0, 2.0] + nothing']
 
 
+def _is_convergence_error(err):
+    from sfc_models.equation_solver import ConvergenceError
+    return isinstance(err, ConvergenceError)
+
+
 @st.composite
 def block_case(draw):
     spec = draw(blocks.system(n_sim=(1, 4), q_hi=70, lags=(0, 3), exos=(1, 3), consts=(0, 2), aliases=(0, 1),
@@ -168,7 +173,7 @@ def run_block(spec):
         if any(v == 'int-scalar' for v in status.values()) and isinstance(err, ValueError):
             labels.append('int-scalar-refused')
             return {'nontrivial': False, 'labels': labels}
-        if outcome == 'ConvergenceError':
+        if _is_convergence_error(err):
             raise Reject('no convergence')
         raise Violation('C10/valid-refused', 'valid input raised %s: %s' % (outcome, err))
     # ---- success: lengths
@@ -310,7 +315,7 @@ def run_model(spec):
             raise Violation('C10/model-short-produced-numbers', 'series longer than one point after the error')
         return {'nontrivial': True, 'labels': labels}
     if outcome != 'ok':
-        if outcome == 'ConvergenceError':
+        if _is_convergence_error(err):
             raise Reject('no convergence')
         raise Violation('C10/model-valid-refused', 'valid model input raised %s: %s' % (outcome, err))
     for name, series in ts.items():
